@@ -75,6 +75,8 @@ pub fn run(args: &[String]) -> i32 {
     let inp = util::open_in(args);
     let mut w = util::open_out(args);
     let mut case_rest: Vec<String> = vec![];
+    let mut case_alt = String::new();
+    let mut open_patterns = 0u64;
     let (mut patterns, mut cases, mut skipped, mut runs, mut mism) = (0u64, 0u64, 0u64, 0u64, 0u64);
     let (mut via_var, mut via_direct) = (0u64, 0u64);
     for line in inp.lines() {
@@ -90,11 +92,13 @@ pub fn run(args: &[String]) -> i32 {
                 .iter()
                 .map(|item| fm::strs(item).join("|"))
                 .collect();
+            case_alt = v["case_alt"].as_str().unwrap_or("").to_string();
             continue;
         }
-        if v["u"].as_str().unwrap_or("") != "" {
-            skipped += 1;
-            continue;
+        // a pattern whose meaning POSIX leaves open: only `case` is compared
+        let open = v["u"].as_str().unwrap_or("") != "";
+        if open {
+            open_patterns += 1;
         }
         let c = fm::strs(&v["c"]);
         let l = fm::flags(&v["l"]);
@@ -117,7 +121,7 @@ pub fn run(args: &[String]) -> i32 {
             let mut script = prelude.clone();
             for (i, row) in rows.iter().enumerate() {
                 script.push_str(&format!(
-                    "v={}\nprobe t{i} \"${{v#{pt}}}\" \"${{v##{pt}}}\" \"${{v%{pt}}}\" \"${{v%%{pt}}}\"\ncase \"$v\" in\n({pt}) probe c{i} 1;;\n",
+                    "v={}\nprobe t{i} \"${{v#{pt}}}\" \"${{v##{pt}}}\" \"${{v%{pt}}}\" \"${{v%%{pt}}}\"\ncase \"$v\" in\n({pt}|{case_alt}) probe c{i} 1;;\n",
                     sq(&row[0])
                 ));
                 for (k, item) in case_rest.iter().enumerate() {
@@ -151,10 +155,10 @@ pub fn run(args: &[String]) -> i32 {
             for (i, row) in rows.iter().enumerate() {
                 cases += 1;
                 let want_t = &row[1..5];
-                // no item selected: no probe
-                let want_c = if row[5] == "0" { None } else { Some(row[5].clone()) };
-                let ok_t = got_t[i].as_deref() == Some(want_t);
-                let ok_c = got_c[i] == want_c;
+                // the item selected must be row[5] or row[6]; "0": none (no probe)
+                let got_item = got_c[i].clone().unwrap_or_else(|| "0".to_string());
+                let ok_t = if open { got_t[i].is_some() } else { got_t[i].as_deref() == Some(want_t) };
+                let ok_c = got_item == row[5] || got_item == row[6];
                 if !(ok_t && ok_c) {
                     mism += 1;
                     if mism <= 200 {
@@ -171,7 +175,7 @@ pub fn run(args: &[String]) -> i32 {
                             w,
                             "{}",
                             json!({"kind": kind, "route": route, "c": c, "l": v["l"], "cs": v["cs"], "nt": v["nt"], "s": row[0],
-                                   "want": {"trim": want_t, "case": row[5]},
+                                   "want": {"trim": want_t, "case": [row[5], row[6]], "open": open},
                                    "got": {"trim": got_t[i], "case": got_c[i], "outcome": outcome,
                                            "stderr": r.stderr_str().chars().take(300).collect::<String>()},
                                    "pattern_text": pt})
@@ -185,7 +189,7 @@ pub fn run(args: &[String]) -> i32 {
     writeln!(
         w,
         "{}",
-        json!({"stats": {"patterns": patterns, "cases": cases, "skipped_unspecified": skipped, "shell_runs": runs,
+        json!({"stats": {"patterns": patterns, "cases": cases, "skipped_unspecified": skipped, "open_patterns_case_only": open_patterns, "shell_runs": runs,
                           "via_var": via_var, "via_direct": via_direct, "mismatches": mism}})
     )
     .unwrap();
